@@ -49,6 +49,8 @@ def slices(tier):
             # 4 object leaves, 3 families, a cherry of species: an ancestor that inherits a family none of its leaves
             # carries and transfers a child to the sister species
             ("U4chainx2x3", [(sh, (None, None)) for sh in spaces.chain_shapes(4)[::3]], u3, [core[0]]),   # the two combs
+            # every 4-leaf object on 3 species leaves, one family: speciations between lineages that each hold a transfer
+            ("U4x3x1", spaces.shape_pairs(4, 3, min_obj=4, min_sp=3), spaces.unordered_syntenies(1), [core[0], core[6]]),
         ]
     full = core + [c for c in c02.EXTRA_VECTORS if spaces.coherent(c)]
     return [
